@@ -3,6 +3,7 @@ package main
 
 import (
 	"bytes"
+	"compress/gzip"
 	"context"
 	"errors"
 	"fmt"
@@ -172,7 +173,7 @@ func work(w *mon.W) {
 	w.Cases("client", uint64(w.Pick(100000, 2000000)), func(c *mon.Case) { clientCase(w, c) })
 	w.Cases("parsers-mutated", uint64(w.Pick(150000, 3000000)), func(c *mon.Case) { parsersMutated(w, c) })
 	w.Cases("parsers-exhaustive", uint64(w.Pick(1, 1)), func(c *mon.Case) { parsersExhaustive(w, c) })
-	w.Cases("huge", uint64(w.Pick(4, 8)), func(c *mon.Case) { hugeCase(w, c) })
+	w.Cases("huge", uint64(w.Pick(5, 10)), func(c *mon.Case) { hugeCase(w, c) })
 }
 
 func trunc(s string, n int) string {
@@ -346,6 +347,12 @@ func serverCase(w *mon.W, c *mon.Case, get func(scfg) *sengine) {
 func tooLarge(w *mon.W, c *mon.Case, get func(scfg) *sengine) {
 	r := c.R
 	cf := scfg{stream: false, small: true}
+	// a streaming server buffers a multipart form before the handler runs, like a buffering
+	// one: the limit holds there too (other streamed bodies reach the handler as a stream)
+	streamedForm := r.Chance(4)
+	if streamedForm {
+		cf.stream = true
+	}
 	en := get(cf)
 	n := r.Int(2001, 2002, 2100, 4096, 5000, 70000)
 	body := wire.PosBody(0, n)
@@ -354,7 +361,7 @@ func tooLarge(w *mon.W, c *mon.Case, get func(scfg) *sengine) {
 	for i := 0; i < pre; i++ {
 		stream = append(stream, fmt.Sprintf("GET /pre%d HTTP/1.1\r\nHost: h\r\n\r\n", i)...)
 	}
-	chunked := r.Bool()
+	chunked := r.Bool() && !streamedForm
 	kindDesc := ""
 	if chunked {
 		stream = append(stream, "POST /big HTTP/1.1\r\nHost: h\r\nTransfer-Encoding: chunked\r\n\r\n"...)
@@ -374,6 +381,9 @@ func tooLarge(w *mon.W, c *mon.Case, get func(scfg) *sengine) {
 		// the limit holds whatever the media type: plain, urlencoded, multipart (which the
 		// server pre-parses), with or without Expect: 100-continue
 		ctype := r.Str("", "", "Content-Type: application/x-www-form-urlencoded\r\n", "Content-Type: multipart/form-data; boundary=xx\r\n", "Content-Type: multipart/form-data; boundary=xx\r\n")
+		if streamedForm {
+			ctype = "Content-Type: multipart/form-data; boundary=xx\r\n"
+		}
 		if strings.Contains(ctype, "multipart") {
 			pre, post := "--xx\r\nContent-Disposition: form-data; name=\"a\"\r\n\r\n", "\r\n--xx--\r\n"
 			if r.Bool() {
@@ -399,7 +409,7 @@ func tooLarge(w *mon.W, c *mon.Case, get func(scfg) *sengine) {
 	en.entries, en.handled, en.lastBodyErr = nil, nil, false
 	en.mu.Unlock()
 	c.Detail = func() interface{} {
-		return map[string]interface{}{"family": "too-large", "body": n, "chunked": chunked, "headers": kindDesc, "pre": pre, "policy": policy, "frag_sizes": wire.FragSizes(frags)}
+		return map[string]interface{}{"family": "too-large", "streaming_server": cf.stream, "body": n, "chunked": chunked, "headers": kindDesc, "pre": pre, "policy": policy, "frag_sizes": wire.FragSizes(frags)}
 	}
 	sc := sconn.New(frags, sconn.EOF)
 	res := rig.Serve(en.e, sc, 4096, false, 20*time.Second)
@@ -765,11 +775,11 @@ func parsersExhaustive(w *mon.W, c *mon.Case) {
 
 // ---- huge declared lengths (D18) ------------------------------------------------
 
-var hugeVariants = []string{"client-cl", "client-chunk", "server-cl-nolimit", "server-chunk-nolimit"}
+var hugeVariants = []string{"client-cl", "client-chunk", "server-cl-nolimit", "server-chunk-nolimit", "server-gzip-form"}
 
 func hugeCase(w *mon.W, c *mon.Case) {
 	variant := hugeVariants[int(c.I)%len(hugeVariants)]
-	size := []string{"9999999999999", "3999999999999"}[int(c.I/4)%2]
+	size := []string{"9999999999999", "3999999999999"}[int(c.I/5)%2]
 	c.Detail = func() interface{} {
 		return map[string]interface{}{"family": "huge", "variant": variant, "declared": size}
 	}
@@ -800,6 +810,10 @@ func hugeCase(w *mon.W, c *mon.Case) {
 			case strings.Contains(s, "standard.(*Conn).fill"), strings.Contains(s, "newBufferNode"):
 				site = "Conn.fill"
 			}
+			if variant == "server-gzip-form" {
+				c.Violate("gzip-form-inflated", "default server, handler reads a form field, request = multipart/form-data with Content-Encoding: gzip whose 2 MB body inflates to 2 GiB: the process dies inflating it into one slice (address space limited to 3 GiB); log tail: %s", tailStr(s, 1500))
+				return
+			}
 			if site != "other" {
 				c.Violate("declared-length-prealloc", "variant %s: hertz allocates by the declared length %s before the bytes arrived -> process dies (%s); log tail: %s", variant, size, site, tailStr(s, 1500))
 				return
@@ -827,6 +841,35 @@ func hugeChild() {
 	variant := os.Getenv("VERIF_C03_HUGE")
 	size := os.Getenv("VERIF_C03_SIZE")
 	switch variant {
+	case "server-gzip-form":
+		// a request well inside the default 4 MiB limit: a multipart form, gzip-encoded, whose
+		// one field inflates to 2 GiB; the handler asks for a form field
+		lim := &syscall.Rlimit{Cur: 3 << 30, Max: 3 << 30}
+		syscall.Setrlimit(syscall.RLIMIT_AS, lim)
+		var gz bytes.Buffer
+		zw, _ := gzip.NewWriterLevel(&gz, gzip.BestSpeed)
+		io.WriteString(zw, "--xx\r\nContent-Disposition: form-data; name=\"a\"\r\n\r\n")
+		zeros := make([]byte, 1<<20)
+		for i := 0; i < 2048; i++ {
+			zw.Write(zeros)
+		}
+		io.WriteString(zw, "\r\n--xx--\r\n")
+		zw.Close()
+		e := rig.NewEngine(rig.Options(nil), func(e *route.Engine) {
+			e.NoRoute(func(c context.Context, ctx *app.RequestContext) {
+				ctx.SetStatusCode(200)
+				ctx.Response.SetBodyString(fmt.Sprintf("a has %d bytes", len(ctx.PostForm("a"))))
+			})
+		})
+		in := fmt.Sprintf("POST /x HTTP/1.1\r\nHost: h\r\nContent-Type: multipart/form-data; boundary=xx\r\nContent-Encoding: gzip\r\nContent-Length: %d\r\n\r\n", gz.Len())
+		sc := sconn.New([][]byte{append([]byte(in), gz.Bytes()...)}, sconn.EOF)
+		res := rig.Serve(e, sc, 4096, false, 50*time.Second)
+		if res.Panic != nil {
+			fmt.Printf("panic: %v\n%s\n", res.Panic, res.Stack)
+			os.Exit(3)
+		}
+		fmt.Println("HUGE-OK err =", res.Err, "request bytes", gz.Len())
+		return
 	case "client-cl", "client-chunk":
 		resp := "HTTP/1.1 200 OK\r\nContent-Length: " + size + "\r\n\r\nabc"
 		if variant == "client-chunk" {
